@@ -155,6 +155,9 @@ def run(ctx):
         ctx.inconclusive.append("transcription and demand disagree on %d random operations" % nmodel)
     nexp = sum(sum(1 for _ in open(p)) for p in glob.glob(exp + ".*"))
     rep2 = engine(ctx, "c14", "TestC14Seq", env={"VERIF_OPS": ops, "VERIF_EXPECT": exp}, timeout=700)
+    # 4. beyond the model's bounds, the os package on the same path as the oracle: zero-length writes, offsets >= 2^32 on
+    #    a sparse file, several reads of one fid in progress at once
+    rep3 = engine(ctx, "c14", "TestC14Extra", env={"VERIF_ROUNDS": 40 if q else 400}, timeout=600)
     executed = rep1.get("cases", 0) + rep2.get("stats", {}).get("steps", 0)
     cov = {
         "states": states, "transitions": trans,
@@ -171,6 +174,8 @@ def run(ctx):
         "max_files_open_at_once": rep2.get("stats", {}).get("max_files_open", 0),
         "within_demand_but_not_as_transcribed": int(rep1.get("stats", {}).get("drift", 0) or 0) + int(rep2.get("stats", {}).get("drift", 0) or 0),
         "violation_keys": {**rep1.get("stats", {}).get("violation_keys", {}), **rep2.get("stats", {}).get("violation_keys", {})},
+        "beyond_the_model": {"level": "exploration", "cases": rep3.get("cases", 0), "stats": rep3.get("stats", {}),
+                             "what": "zero-length writes, offsets around and beyond 2^32 on a sparse file, 4 Treads of one fid at once; oracle: os package"},
         "msizes": MSIZES, "spec_refutes_readn_as_found": ra.violated == "ReadsMeet",
         "exhaustive": not q,
     }
